@@ -12,8 +12,19 @@ Definition Inv (st : tstate) (q : queue) (o : outcome) : Prop :=
      (length toks <= n)%nat /\ sunf st' = true /\ exists sts, trun sts toks = Some st' /\ sunf sts = true) /\
   (forall acc f, o = OMoreTop acc f -> q_instr q = true).
 
-Definition KI (d : Z) (k : sexp -> queue -> outcome) : Prop :=
-  forall e q sg, is_send e = false -> bc_ok (q_toks q) = true -> Inv (d, WFree, false, sg) q (k e q).
+(* continuation after an expression read at depth d while a reader prefix is / is not (p) waiting for its
+   operand: a comment leaves the prefix waiting, anything else is the operand *)
+Definition KI (d : Z) (p : bool) (k : sexp -> queue -> outcome) : Prop :=
+  forall e q sg, is_send e = false -> bc_ok (q_toks q) = true ->
+    Inv (d, WFree, (if is_comment e then p else false), sg) q (k e q).
+
+(* continuation that is only ever given a non-comment (a list, an array, a string ...) *)
+Definition KN (d : Z) (k : sexp -> queue -> outcome) : Prop :=
+  forall e q sg, is_send e = false -> is_comment e = false -> bc_ok (q_toks q) = true ->
+    Inv (d, WFree, false, sg) q (k e q).
+
+Lemma KI_KN : forall d p k, KI d p k -> KN d k.
+Proof. intros d p k H e q sg Hs Hc Hb. specialize (H e q sg Hs Hb). rewrite Hc in H. exact H. Qed.
 
 Lemma inv_triv : forall st q o, (forall acc f, o <> ODone acc f) -> (forall acc n t k, o <> OSusp acc n t k) ->
   (forall acc f, o <> OMoreTop acc f) -> Inv st q o.
@@ -56,26 +67,26 @@ Proof.
   - eauto.
 Qed.
 
-Lemma pblock_inv : forall f d acc q text k, KI d k -> bc_ok (q_toks q) = true ->
-  Inv (d, WBlock, false, false) q (pblock f acc q text k).
+Lemma pblock_inv : forall f d p acc q text k, KI d p k -> bc_ok (q_toks q) = true ->
+  Inv (d, WBlock, p, false) q (pblock f acc q text k).
 Proof.
-  induction f as [|f IH]; intros d acc q text k Hk Hc; [triv|].
+  induction f as [|f IH]; intros d p acc q text k Hk Hc; [triv|].
   simpl. apply need_inv0; [unfold sunf; destruct (0 <? d); reflexivity|]. intros Hl.
   assert (q_toks q <> []) as Hne by (eapply len_ne'; exact Hl).
   destruct (kind_is (tok_at q 0) TEndBlockComment) eqn:K1.
-  - eapply inv_step; [exact Hne| |apply Hk; [reflexivity|apply cp_tail; exact Hc]].
+  - eapply inv_step; [exact Hne| |apply (Hk (SComment true (text ++ t_str (tok_at q 0)))); [reflexivity|apply cp_tail; exact Hc]].
     simpl. unfold kind_is in *. destruct (t_kind (tok_at q 0)); try discriminate; reflexivity.
   - destruct (kind_is (tok_at q 0) TComment) eqn:K2; [|triv].
     eapply inv_step; [exact Hne| |apply IH; [exact Hk|apply cp_tail; exact Hc]]. simpl. rewrite K2. reflexivity.
 Qed.
 
-Lemma pbacktick_inv : forall d acc q k, KI d k -> bc_ok (q_toks q) = true ->
+Lemma pbacktick_inv : forall d acc q k, KN d k -> bc_ok (q_toks q) = true ->
   Inv (d, WRaw, false, false) q (pbacktick acc q k).
 Proof.
   intros d acc q k Hk Hc. unfold pbacktick. apply need_inv0; [unfold sunf; destruct (0 <? d); reflexivity|]. intros Hl.
   assert (q_toks q <> []) as Hne by (eapply len_ne'; exact Hl).
   destruct (kind_is (tok_at q 0) TBacktickString) eqn:K1; [|triv].
-  eapply inv_step; [exact Hne| |apply Hk; [reflexivity|apply cp_tail; exact Hc]]. simpl. rewrite K1. reflexivity.
+  eapply inv_step; [exact Hne| |apply Hk; [reflexivity|reflexivity|apply cp_tail; exact Hc]]. simpl. rewrite K1. reflexivity.
 Qed.
 
 Lemma look_inv : forall (b : bool) st acc q kend k,
@@ -277,27 +288,31 @@ Qed.
 Section Unf.
 
 Definition Iexpr (f : nat) : Prop := forall d p sg acc top q k,
-  0 <= d -> bc_ok (q_toks q) = true -> KI d k ->
+  0 <= d -> bc_ok (q_toks q) = true -> KI d p k ->
   (top = false -> 1 <= d \/ p = true) ->
   (top = true -> q_toks q = [] -> Inv (d, WFree, p, sg) q (k SEnd q)) ->
   Inv (d, WFree, p, sg) q (pexpr true true f acc top q k).
 Definition Ilist (f : nat) : Prop := forall d sg acc q endk k,
-  1 <= d -> (endk = TRParen \/ endk = TRCurly) -> bc_ok (q_toks q) = true -> KI (d - 1) k ->
+  1 <= d -> (endk = TRParen \/ endk = TRCurly) -> bc_ok (q_toks q) = true -> KN (d - 1) k ->
   Inv (d, WFree, false, sg) q (plist true true f acc q endk k).
 Definition Iarray (f : nat) : Prop := forall d sg acc q arr k,
-  1 <= d -> bc_ok (q_toks q) = true -> KI (d - 1) k ->
+  1 <= d -> bc_ok (q_toks q) = true -> KN (d - 1) k ->
   Inv (d, WFree, false, sg) q (parray true true f acc q arr k).
 Definition Iinfix (f : nat) : Prop := forall d sg acc q arr k,
-  1 <= d -> bc_ok (q_toks q) = true -> KI (d - 1) k ->
+  1 <= d -> bc_ok (q_toks q) = true -> KN (d - 1) k ->
   Inv (d, WFree, false, sg) q (pinfix true true f acc q arr k).
 
-Lemma KI_shift : forall d k, KI d k -> KI (d + 1 - 1) k.
-Proof. intros d k H. replace (d + 1 - 1) with d by lia. exact H. Qed.
+Definition Iprefix (f : nat) : Prop := forall d sg p0 acc q name k,
+  0 <= d -> bc_ok (q_toks q) = true -> KI d p0 k ->
+  Inv (d, WFree, true, sg) q (pprefix true true f acc q name k).
 
-Lemma main_inv : forall f, Iexpr f /\ Ilist f /\ Iarray f /\ Iinfix f.
+Lemma KI_shift : forall d p k, KI d p k -> KN (d + 1 - 1) k.
+Proof. intros d p k H. replace (d + 1 - 1) with d by lia. eapply KI_KN; exact H. Qed.
+
+Lemma main_inv : forall f, Iexpr f /\ Ilist f /\ Iarray f /\ Iinfix f /\ Iprefix f.
 Proof.
-  induction f as [|f [IHe [IHl [IHa IHi]]]].
-  - split; [|split; [|split]]; red; intros; triv.
+  induction f as [|f [IHe [IHl [IHa [IHi IHp]]]]].
+  - split; [|split; [|split; [|split]]]; red; intros; triv.
   - assert (Iexpr (S f)) as HE.
     { red. intros d p sg acc top q k Hd Hc Hk Hnt Hend. simpl pexpr.
       apply look_inv.
@@ -306,21 +321,20 @@ Proof.
           - destruct (Hnt eq_refl) as [H|H]; [apply sunf_pos; exact H|subst p; unfold sunf; destruct (0 <? d); reflexivity]. }
       intros Hne.
       assert (bc_ok (q_toks (q_tail q)) = true) as Hc1 by (apply cp_tail; exact Hc).
-      assert (forall name, KI d (fun e q2 => k (list2 (sym name) e) q2)) as Hsug
-        by (intros name e q2 sg2 He H2; apply Hk; [reflexivity|exact H2]).
-      assert (forall e sg2, is_send e = false -> Inv (d, WFree, false, sg2) (q_tail q) (k e (q_tail q))) as Hk1
-        by (intros e sg2 He; apply Hk; assumption).
+      assert (KN d k) as Hkn by (eapply KI_KN; exact Hk).
+      assert (forall e sg2, is_send e = false -> is_comment e = false -> Inv (d, WFree, false, sg2) (q_tail q) (k e (q_tail q))) as Hk1
+        by (intros e sg2 He Hce; apply Hkn; assumption).
       destruct (t_kind (tok_at q 0)) eqn:K;
         try triv;
         try (eapply inv_step; [exact Hne|unfold tstep, is_sign, kind_is; rewrite K; reflexivity|apply Hk1; reflexivity]);
         try (eapply inv_step; [exact Hne|unfold tstep; rewrite K; reflexivity|];
-             apply IHe; [exact Hd|exact Hc1|apply Hsug|intros _; right; reflexivity|discriminate]).
+             eapply IHp; [exact Hd|exact Hc1|exact Hk]).
       + (* TLParen *)
         eapply inv_step; [exact Hne|unfold tstep; rewrite K; reflexivity|].
-        apply IHl; [lia|left; reflexivity|exact Hc1|apply KI_shift; exact Hk].
+        apply IHl; [lia|left; reflexivity|exact Hc1|eapply KI_shift; exact Hk].
       + (* TLSquare *)
         eapply inv_step; [exact Hne|unfold tstep; rewrite K; reflexivity|].
-        apply IHa; [lia|exact Hc1|apply KI_shift; exact Hk].
+        apply IHa; [lia|exact Hc1|eapply KI_shift; exact Hk].
       + (* TLCurly *)
         eapply inv_step; [exact Hne|unfold tstep; rewrite K; reflexivity|].
         assert (sunf (d + 1, WFree, false, false) = true) as Hs1 by (apply sunf_pos; lia).
@@ -332,9 +346,9 @@ Proof.
           - intros st' _. exists WFree. split; [reflexivity|left; reflexivity]. }
         red. intros q3 tok2 extra Hc3 (i & -> & Hn & Hp).
         assert (Inv (d + 1, WFree, false, false) q3 (pinfix true true f acc q3 [] k)) as Hinf
-          by (apply IHi; [lia|exact Hc3|apply KI_shift; exact Hk]).
+          by (apply IHi; [lia|exact Hc3|eapply KI_shift; exact Hk]).
         assert (Inv (d + 1, WFree, false, false) q3 (plist true true f acc (q_push hash_tok q3) TRCurly k)) as Hhash.
-        { apply inv_push_hash. apply IHl; [lia|right; reflexivity|apply cp_push_hash; exact Hc3|apply KI_shift; exact Hk]. }
+        { apply inv_push_hash. apply IHl; [lia|right; reflexivity|apply cp_push_hash; exact Hc3|eapply KI_shift; exact Hk]. }
         destruct (t_kind tok2) eqn:K2; try exact Hinf.
         * (* TRCurly: the skipped comments and the brace are dropped *)
           apply (inv_drop _ (d, WFree, false, false) _ (S i)).
@@ -344,7 +358,7 @@ Proof.
              destruct Hor; subst a; simpl in H1.
              ++ rewrite K2 in H1. inversion H1; subst. replace (d + 1 - 1) with d in H2 by lia. exact H2.
              ++ unfold kind_is in H1. rewrite K2 in H1. simpl in H1. discriminate.
-          -- apply Hk; [reflexivity|]. unfold q_drop; cbn [q_toks]. apply bc_ok_skipn; exact Hc3.
+          -- apply Hkn; [reflexivity|reflexivity|]. unfold q_drop; cbn [q_toks]. apply bc_ok_skipn; exact Hc3.
         * apply need_inv; [exact Hs1| |].
           { intros Hl st' Ht. apply (tail_sunf (d + 1) (q_toks q3) i tok2 0 ltac:(lia) Hc3 Hp Hn); [simpl in *; lia| |exact Ht].
             right; right; split; [right; right; unfold kind_is; rewrite K2; reflexivity|reflexivity]. }
@@ -370,11 +384,11 @@ Proof.
           assert (q_toks (q_tail q) <> []) as Hne1 by (eapply len_ne'; exact Hl).
           destruct (kind_is (tok_at (q_tail q) 0) TFloat &&
                     (list_eqb (t_str (tok_at (q_tail q) 0)) str_Inf || list_eqb (t_str (tok_at (q_tail q) 0)) str_inf)) eqn:KF.
-          -- eapply inv_step; [exact Hne1| |apply Hk; [reflexivity|apply cp_tail; exact Hc1]].
+          -- eapply inv_step; [exact Hne1| |apply Hkn; [reflexivity|reflexivity|apply cp_tail; exact Hc1]].
              apply andb_prop in KF. destruct KF as [KF _]. unfold kind_is in KF.
              unfold tstep, is_sign, kind_is. destruct (t_kind (tok_at (q_tail q) 0)); try discriminate. reflexivity.
-          -- apply Hk; [reflexivity|exact Hc1].
-        * destruct (list_eqb (t_str (tok_at q 0)) str_nil); apply Hk; try reflexivity; exact Hc1.
+          -- apply Hkn; [reflexivity|reflexivity|exact Hc1].
+        * destruct (list_eqb (t_str (tok_at q 0)) str_nil); apply Hkn; try reflexivity; exact Hc1.
       + (* TDecimal *) eapply inv_step; [exact Hne|unfold tstep, is_sign, kind_is; rewrite K; reflexivity|].
         destruct (parse_int 10 _); [apply Hk1; reflexivity|triv].
       + eapply inv_step; [exact Hne|unfold tstep, is_sign, kind_is; rewrite K; reflexivity|].
@@ -387,6 +401,9 @@ Proof.
         destruct (list_eqb _ str_NaN); [apply Hk1; reflexivity|]. destruct (float_ok _); [apply Hk1; reflexivity|triv].
       + (* TBeginBacktickString *)
         eapply inv_step; [exact Hne|unfold tstep; rewrite K; reflexivity|]. apply pbacktick_inv; assumption.
+      + (* TComment: a reader prefix keeps waiting *)
+        eapply inv_step; [exact Hne|unfold tstep; rewrite K; reflexivity|].
+        apply (Hk (SComment false (t_str (tok_at q 0)))); [reflexivity|exact Hc1].
       + (* TBeginBlockComment *)
         eapply inv_step; [exact Hne|unfold tstep; rewrite K; reflexivity|]. apply pblock_inv; assumption.
       + (* TUint64 *) eapply inv_step; [exact Hne|unfold tstep, is_sign, kind_is; rewrite K; reflexivity|].
@@ -396,23 +413,25 @@ Proof.
       apply need_inv0; [apply sunf_pos; exact Hd|]. intros Hlen.
       assert (q_toks q <> []) as Hne by (eapply len_ne'; exact Hlen).
       destruct (kind_is (tok_at q 0) endk) eqn:KE.
-      - eapply inv_step; [exact Hne| |apply Hk; [reflexivity|apply cp_tail; exact Hc]].
+      - eapply inv_step; [exact Hne| |apply Hk; [reflexivity|reflexivity|apply cp_tail; exact Hc]].
         unfold kind_is in KE. unfold tstep. destruct He; subst endk; destruct (t_kind (tok_at q 0)); try discriminate; reflexivity.
       - apply IHe; [lia|exact Hc| |intros _; left; exact Hd|discriminate].
         red. intros head q2 sg2 Hh Hc2.
+        replace (if is_comment head then false else false) with false by (destruct (is_comment head); reflexivity).
         assert (forall q5 sg5, bc_ok (q_toks q5) = true ->
                 Inv (d, WFree, false, sg5) q5 (plist true true f acc q5 endk (fun tl q' => k (SPair head tl) q'))) as Hrest.
         { intros q5 sg5 H5. apply IHl; [exact Hd|exact He|exact H5|].
-          red. intros tl q6 sg6 _ H6. apply Hk; [reflexivity|exact H6]. }
+          red. intros tl q6 sg6 _ _ H6. apply Hk; [reflexivity|reflexivity|exact H6]. }
         apply look_inv; [|intros _; apply sunf_pos; exact Hd].
         intros Hne2. destruct (kind_is (tok_at q2 0) TBackslash) eqn:KB; [|apply Hrest; exact Hc2].
         eapply inv_step; [exact Hne2| |].
         { unfold kind_is in KB. unfold tstep, is_sign, kind_is. destruct (t_kind (tok_at q2 0)); try discriminate. reflexivity. }
         apply IHe; [lia|apply cp_tail; exact Hc2| |intros _; left; exact Hd|discriminate].
         red. intros tail q4 sg4 _ Hc4.
+        replace (if is_comment tail then false else false) with false by (destruct (is_comment tail); reflexivity).
         apply look_inv; [|intros _; apply sunf_pos; exact Hd].
         intros Hne4. destruct (kind_is (tok_at q4 0) TRParen) eqn:KR; [|triv].
-        eapply inv_step; [exact Hne4| |apply Hk; [reflexivity|apply cp_tail; exact Hc4]].
+        eapply inv_step; [exact Hne4| |apply Hk; [reflexivity|reflexivity|apply cp_tail; exact Hc4]].
         unfold kind_is in KR. unfold tstep. destruct (t_kind (tok_at q4 0)); try discriminate; reflexivity. }
     assert (Iarray (S f)) as HA.
     { red. intros d sg acc q arr k Hd Hc Hk. simpl parray.
@@ -422,20 +441,30 @@ Proof.
       - eapply inv_step; [exact Hne| |apply IHa; [exact Hd|apply cp_tail; exact Hc|exact Hk]].
         unfold kind_is in K1. unfold tstep, is_sign, kind_is. destruct (t_kind (tok_at q 0)); try discriminate; reflexivity.
       - destruct (kind_is (tok_at q 0) TRSquare) eqn:K2.
-        + eapply inv_step; [exact Hne| |apply Hk; [reflexivity|apply cp_tail; exact Hc]].
+        + eapply inv_step; [exact Hne| |apply Hk; [reflexivity|reflexivity|apply cp_tail; exact Hc]].
           unfold kind_is in K2. unfold tstep. destruct (t_kind (tok_at q 0)); try discriminate; reflexivity.
         + apply IHe; [lia|exact Hc| |intros _; left; exact Hd|discriminate].
-          red. intros e q2 sg2 _ H2. apply IHa; assumption. }
+          red. intros e q2 sg2 _ H2.
+          replace (if is_comment e then false else false) with false by (destruct (is_comment e); reflexivity).
+          apply IHa; assumption. }
     assert (Iinfix (S f)) as HI.
     { red. intros d sg acc q arr k Hd Hc Hk. simpl pinfix.
       apply need_inv0; [apply sunf_pos; exact Hd|]. intros Hlen.
       assert (q_toks q <> []) as Hne by (eapply len_ne'; exact Hlen).
       destruct (kind_is (tok_at q 0) TRCurly) eqn:K2.
-      - eapply inv_step; [exact Hne| |apply Hk; [reflexivity|apply cp_tail; exact Hc]].
+      - eapply inv_step; [exact Hne| |apply Hk; [reflexivity|reflexivity|apply cp_tail; exact Hc]].
         unfold kind_is in K2. unfold tstep. destruct (t_kind (tok_at q 0)); try discriminate; reflexivity.
       - apply IHe; [lia|exact Hc| |intros _; left; exact Hd|discriminate].
-        red. intros e q2 sg2 _ H2. apply IHi; assumption. }
-    split; [|split; [|split]]; assumption.
+        red. intros e q2 sg2 _ H2.
+        replace (if is_comment e then false else false) with false by (destruct (is_comment e); reflexivity).
+        apply IHi; assumption. }
+    assert (Iprefix (S f)) as HP.
+    { red. intros d sg p0 acc q name k Hd Hc Hk. simpl pprefix.
+      apply IHe; [exact Hd|exact Hc| |intros _; right; reflexivity|discriminate].
+      red. intros e q2 sg2 He Hc2. destruct (is_comment e) eqn:Ec.
+      - eapply IHp; [exact Hd|exact Hc2|exact Hk].
+      - apply (Hk (list2 (sym name) e)); [reflexivity|exact Hc2]. }
+    split; [|split; [|split; [|split]]]; assumption.
 Qed.
 
 End Unf.
@@ -445,7 +474,9 @@ Lemma ptop_inv : forall f acc q sg, bc_ok (q_toks q) = true -> Inv (0, WFree, fa
 Proof.
   induction f as [|f IH]; intros acc q sg Hc; [triv|].
   simpl ptop. apply (proj1 (main_inv f)); [lia|exact Hc| |discriminate|].
-  - red. intros e q' sg' He Hc'. rewrite He. apply IH; exact Hc'.
+  - red. intros e q' sg' He Hc'. rewrite He.
+    replace (if is_comment e then false else false) with false by (destruct (is_comment e); reflexivity).
+    apply IH; exact Hc'.
   - intros _ Hnil. simpl. destruct (q_instr q) eqn:Ei; [split; [|split]; intros; try discriminate; exact Ei|].
     split; [|split]; intros; [|discriminate|discriminate]. split; [exact Ei|]. intros st' Ht. rewrite Hnil in Ht. simpl in Ht. inversion Ht; subst. reflexivity.
 Qed.
